@@ -28,6 +28,10 @@ def enumeration(depth2):
         out.append(['null', b] if b != 'null' else ['null', 'int'])
         out.append({'type': 'record', 'name': 'R', 'fields': [{'name': 'a', 'type': b}]})
         out.append({'type': 'record', 'name': 'R', 'fields': [{'name': 'a', 'type': b}, {'name': 'b', 'type': 'int', 'default': 1}]})
+    for e in (ALPHABET[17], ALPHABET[18], ALPHABET[19]):
+        out.append(['null', e])
+        out.append({'type': 'record', 'name': 'R', 'fields': [{'name': 'a', 'type': ['null', e]}]})
+        out.append({'type': 'array', 'items': ['null', e]})
     out.append(['int', 'string'])
     out.append(['string', 'int', 'null'])
     out.append({'type': 'record', 'name': 'R', 'fields': [{'name': 'x', 'type': {'type': 'enum', 'name': 'E', 'symbols': ['A', 'B']}}, {'name': 'y', 'type': 'E'}]})
@@ -68,7 +72,7 @@ def check(run, replay_case=None):
         for a, b in itertools.product(range(len(en)), repeat=2):
             pairs.append({'cid': 'e%d_%d' % (a, b), 'writer': en[a], 'reader': en[b], 'labels': ['identity'] if a == b else ['enumerated'], 'safe': True if a == b else None})
         if run.quick():
-            rng = random.Random('%s/c09sub' % run.seed)
+            rng = random.Random('c09-enumeration-subsample')      # seed independent: the deterministic part of the workload
             diag = [p for p in pairs if p['labels'] == ['identity']]
             rest = [p for p in pairs if p['labels'] != ['identity']]
             rng.shuffle(rest)
@@ -112,7 +116,7 @@ def check(run, replay_case=None):
         if c['safe'] is True and verdict == 'Incompatible' and c['labels'] != ['enumerated']:
             run.violation('safe-evolution-reported-incompatible steps=%s' % sig_labels(c['labels']), 'a pair that differs only by always-safe steps is reported incompatible', case, observed=cr)
         if verdict == 'Full':
-            rng = random.Random('%s/c09v/%s' % (run.seed, cid))
+            rng = random.Random('c09v/%s' % cid) if cid.startswith('e') else random.Random('%s/c09v/%s' % (run.seed, cid))
             vals = hostile_values(rng, wn, wenv, k_vals)
             c['_vals'] = vals
             ops = [{'id': '%s/pw' % cid, 'op': 'parse_schema', 'sid': cid + 'w', 'text': json.dumps(c['writer'])},
@@ -142,7 +146,9 @@ def check(run, replay_case=None):
             if 'err' in it:
                 wk = names.kind_of(wn, wenv)
                 rk = names.kind_of(rn, renv)
-                run.violation('full-but-read-fails writer=%s reader=%s error=%s' % (wk, rk, it['err'].get('kind')),
+                # enumerated pairs are seed independent: name the pair, so that a verdict that newly becomes unsound is a new signature
+                where = 'pair=%s' % cid if cid.startswith('e') else 'writer=%s reader=%s' % (wk, rk)
+                run.violation('full-but-read-fails %s error=%s' % (where, it['err'].get('kind')),
                               'can_read says Full, yet a value writable with W fails to read with R', dict(case, value=v), observed=it['err'])
                 break
 
